@@ -30,11 +30,11 @@ def line_ks(n, tier, src_choice=None):
 class C01(HistoryCheck):
     PROP = "C01"
     LEVEL = "fault_enumeration"
-    RUNS = {"quick": 240, "thorough": 4000}
+    RUNS = {"quick": 1200, "thorough": 12000}
     PROFILE = {"allow_frozen": False, "allow_class_dnc": False}
     OPGEN = {"p_bad": 0.25, "p_inplace": 0.25}
     N_OPS = {"quick": (6, 16), "thorough": (8, 25)}
-    P_PROBE = {"quick": 0.45, "thorough": 0.6}
+    P_PROBE = {"quick": 0.1, "thorough": 0.25}
     RULE = ("a probe = (reachable receiver state from a seeded history, generated helper called without "
             "_inplace, argument tuple incl. ill-formed ones); executed fault-free, with an InjectedFault at "
             "every callback invocation index, and with line aborts at library line events (quick: <=24 "
@@ -54,12 +54,18 @@ class C01(HistoryCheck):
     def step(self, ctx, world, op, idx):
         if op.get("probe") and method_kind(world, op) and not is_inplace(op):
             self.probe(ctx, world, op, idx)
-        prep, out = world.execute(op)
+        mk = method_kind(world, op)
+        if mk and not is_inplace(op):
+            # the execution that enters the history is judged too (fault-free): every copy-on-write call of every
+            # run is an evaluation, not only the probed ones
+            out = self._exec_checked(ctx, world, op, idx, mk, None, commit=True)
+        else:
+            prep, out = world.execute(op)
         ctx.log(op["id"], out.summary(), state_digest(world))
         return out
 
     # ------------------------------------------------------------------
-    def _exec_checked(self, ctx, world, op, idx, mk, plan, count_lines=False):
+    def _exec_checked(self, ctx, world, op, idx, mk, plan, count_lines=False, commit=False):
         prep = world.prepare(op)
         recv = prep.target
         others = [v for v in world.insts.values() if v is not recv]
@@ -87,6 +93,8 @@ class C01(HistoryCheck):
                  "stack": out.fired[3][:12] if out.fired else None},
                 step=idx,
             )
+        if commit:
+            world.commit(op, prep, out)
         return out
 
     @staticmethod
